@@ -54,6 +54,7 @@ impl Monitor for C13 {
             "replacement_collides_with_member",
             "replacement_is_obsolete",
             "member_in_several_categories",
+            "operation_histories",
         ]
         .iter()
         .map(|s| (*s).to_string())
@@ -259,6 +260,101 @@ impl Monitor for C13 {
                     }
                 }
                 Err(e) => out.violate("C13", "information_content_err", format!("subset {sv:?}: {e}")),
+            }
+        }
+        // ---- operation histories on ONE HpoSet object: queries and in-place operations interleaved; after
+        // every step all aggregates must describe the current member set (catches caches inside the set
+        // that an in-place operation forgets to reset)
+        for h in 0..3 {
+            let k = rng.urange(1, ids.len().min(12));
+            let mut members: BTreeSet<u32> = rng.sample_indices(ids.len(), k).iter().map(|i| ids[*i]).collect();
+            // make sure modifier / obsolete / replaced members take part
+            for (id, (obs, repl)) in &flags {
+                if (m.is_modifier(*id) || *obs || repl.is_some()) && rng.chance(1, 3) {
+                    members.insert(*id);
+                }
+            }
+            let start: Vec<u32> = members.iter().copied().collect();
+            let mut ops: Vec<String> = Vec::new();
+            let res = guard(|| {
+                let mut local = CaseOut::new();
+                let mut set = mk(&ont, &members);
+                for step in 0..rng.urange(3, 9) {
+                    let op = rng.below(8);
+                    match op {
+                        0 => {
+                            set.remove_modifier();
+                            members.retain(|x| !m.is_modifier(*x));
+                            ops.push("remove_modifier".into());
+                        }
+                        1 => {
+                            set.remove_obsolete();
+                            members.retain(|x| !flags[x].0);
+                            ops.push("remove_obsolete".into());
+                        }
+                        2 => {
+                            set.replace_obsolete();
+                            members = members.iter().map(|x| flags[x].1.unwrap_or(*x)).collect();
+                            ops.push("replace_obsolete".into());
+                        }
+                        3 => {
+                            let extra = *rng.pick(&ids);
+                            set.extend(std::iter::once(ont.hpo(extra).expect("term")));
+                            members.insert(extra);
+                            ops.push(format!("extend({extra})"));
+                        }
+                        _ => ops.push("query".into()),
+                    }
+                    // every aggregate after every step
+                    let mv: Vec<u32> = members.iter().copied().collect();
+                    let got_ids = set_ids(&set);
+                    local.check(got_ids == mv && set.len() == mv.len(), "C13", "history/members", || format!("history {h} step {step} ({ops:?} from {start:?}): members {got_ids:?}, expected {mv:?}"));
+                    for kk in 0..3 {
+                        let got: BTreeSet<u32> = match kk {
+                            0 => set.gene_ids().iter().map(|x| x.as_u32()).collect(),
+                            1 => set.omim_disease_ids().iter().map(|x| x.as_u32()).collect(),
+                            _ => set.orpha_disease_ids().iter().map(|x| x.as_u32()).collect(),
+                        };
+                        let mut e: BTreeSet<u32> = BTreeSet::new();
+                        for t in &members {
+                            e.extend(m.links[kk][t].iter().copied());
+                        }
+                        local.check(got == e, "C13", &format!("history/union_ids/{}", KIND_NAMES[kk]), || {
+                            format!("history {h} step {step} ({ops:?} from {start:?}): {} ids {got:?}, union over the current members {e:?}", KIND_NAMES[kk])
+                        });
+                        if kk < 2 {
+                            if let Ok(ic) = set.information_content() {
+                                let v = if kk == 0 { ic.gene() } else { ic.omim_disease() };
+                                let n = e.len();
+                                let exp = if n == 0 || totals[kk] == 0 { 0.0 } else { -((n as f64) / (totals[kk] as f64)).ln() };
+                                local.check(crate::observe::ic_close(v, exp), "C13", &format!("history/information_content/{}", KIND_NAMES[kk]), || {
+                                    format!("history {h} step {step} ({ops:?} from {start:?}): aggregated IC {v}, expected {exp}")
+                                });
+                            }
+                        }
+                    }
+                    let cats: BTreeMap<u32, usize> = set.categories().iter().map(|(k, v)| (k.as_u32(), *v)).collect();
+                    let mut e_cats: BTreeMap<u32, usize> = BTreeMap::new();
+                    for t in &members {
+                        for c in m.term_categories(*t) {
+                            *e_cats.entry(c).or_insert(0) += 1;
+                        }
+                    }
+                    local.check(cats == e_cats, "C13", "history/categories", || format!("history {h} step {step} ({ops:?} from {start:?}): categories {cats:?}, expected {e_cats:?}"));
+                    let child = set_ids(&set.child_nodes());
+                    let e_child: Vec<u32> = mv.iter().copied().filter(|x| !members.iter().any(|y| y != x && m.anc[y].contains(x))).collect();
+                    local.check(child == e_child, "C13", "history/child_nodes", || format!("history {h} step {step}: child_nodes {child:?}, expected {e_child:?}"));
+                }
+                local
+            });
+            bump(&mut out.events, "HpoSet::operation_history");
+            out.bucket("operation_histories");
+            match res {
+                Ok(local) => {
+                    out.comparisons += local.comparisons;
+                    out.violations.extend(local.violations);
+                }
+                Err(p) => out.violate("C13", "panic:history", format!("history {h} ({ops:?} from {start:?}): {} at {}", p.message, p.location)),
             }
         }
         out
